@@ -1,16 +1,10 @@
-"""Per-property configuration: which harnesses decide a property, which ufw
-sources they are linked with, how many shards, vacuity guards."""
+"""Per-property configuration, one file per property under engine/checks.d/:
+which harnesses decide a property, which ufw sources they are linked with, how
+many shards, vacuity guards.  See HARNESS-GUIDE.md for the keys."""
+import glob
+import os
+import runpy
 
-CHECKS = {
-    "C18": {
-        "level": "model_checking",
-        "rule": "explicit-state search: every operation of the alphabet applied to every reachable (size,used,offset,image) state; a case is one transition; non-trivial = everything but reset of an already empty buffer; plus the full set-up argument matrix",
-        "assumptions": ["octet alphabet {00,a1,b2}; buffer sizes up to the stated bound (small-scope)",
-                        "ASan red zones around exact-size heap blocks observe out-of-bounds accesses"],
-        "harnesses": [{
-            "name": "c18_bytebuffer", "src": "harness/c18_bytebuffer.c", "shape": "estate",
-            "lib": ["src/byte-buffer.c"], "shards": 1, "min_outcomes": 10,
-            "require_outcomes": {"any": ["rewind-moves", "add-refused", "consume-refused", "atmost-short", "set-refused"]},
-        }],
-    },
-}
+CHECKS = {}
+for _p in sorted(glob.glob(os.path.join(os.path.dirname(os.path.abspath(__file__)), "checks.d", "C*.py"))):
+    CHECKS[os.path.basename(_p)[:-3]] = runpy.run_path(_p)["CHECK"]
